@@ -391,10 +391,12 @@ def f8_predicate(text):
 
 
 def legacy_astral_range(text):
-    """Class predicate of known finding F29: no u/v flag, the implementation accepts and the
-    specification rejects, and the pattern contains a supplementary code point immediately followed by
-    `-` and a further class member (a range whose left end is a trail surrogate in UTF-16)."""
-    m = re.match(r"esvalid (\S+) (\S+) \|\| implementation \[valid\] differs .* \[invalid\]", text)
+    """Class predicate of known finding F29: no u/v flag, implementation and specification disagree on validity, and
+    the pattern contains a supplementary code point immediately followed by `-` and a further class member (a range
+    whose left end is a trail surrogate in UTF-16: the crate compares the whole code point with the right end, so
+    `[U+10400-U+1044F]` is accepted where ES reports a range out of order, and `[U+10400-\\uDE00]` is rejected
+    where ES sees the valid range DC00-DE00)."""
+    m = re.match(r"esvalid (\S+) (\S+) \|\| implementation \[(?:valid|invalid)\] differs .* \[(?:valid|invalid)\]", text)
     if not m:
         return False
     flags, pat = m.group(1), m.group(2)
